@@ -123,6 +123,9 @@ var trustOnce sync.Once
 
 func (s *Server) URL() string { return s.HTTP.URL }
 
+// Handler exposes the protocol handlers of a repository made with NewCore (no listener of its own).
+func (s *Server) Handler() http.Handler { return s.mux }
+
 // abortNow says whether the packfile being exchanged is the one to cut (and counts it).
 func (s *Server) abortNow() bool {
 	s.packsSeen++
